@@ -76,6 +76,9 @@ int main(int argc, char **argv) {
   ::emboss::TextOutputOptions o;
   o = o.Multiline(m != 0).WithComments(c != 0).WithNumericBase(static_cast<uint8_t>(b)).WithDigitGrouping(g != 0);
   if (m) o = o.WithIndent("  ");
+  std::cout << "WriteToString with allow_partial_output:\n"
+            << ::emboss::WriteToString(v, o.WithAllowPartialOutput(true)) << "\n";
+  if (!v.Ok()) return 0;
   std::string text = ::emboss::WriteToString(v, o);
   std::cout << "WriteToString:\n" << text << "\n";
   auto w = MAKE(b2.get(), n);
@@ -116,13 +119,50 @@ def replay(path):
         print("front end:", exc, emb.error_summary(errors))
         return 0
     header, herr = emb.generate_header(ir)
-    ns = re.search(r'namespace: "([^"]+)"', rec["emb"]).group(1)
+    ns = re.search(r'namespace: "([^"]+)"', rec["emb"]).group(1).strip(":")
+    if "struct" not in rec or rec.get("struct") is None:
+        # text I/O of the module does not compile (or a crash that could not be pinned to a line):
+        # instantiate WriteToString / UpdateFromText of every struct and show the compiler's verdict
+        d = os.path.join(common.scratch(), "replay")
+        os.makedirs(d, exist_ok=True)
+        with open(os.path.join(d, "m.emb.h"), "w") as f:
+            f.write(header)
+        body = []
+        for t in emb.ir_to_dict(ir)["module"][0]["type"]:
+            if "structure" not in t or t.get("addressable_unit") not in ("BYTE", 8):
+                continue
+            casts = c06_corpus.param_kinds(t, ns)
+            if casts is None:
+                continue
+            args = "".join("%s(0), " % c for c in casts)
+            body.append("  { auto v = ::%s::Make%sView(%sstatic_cast<unsigned char *>(nullptr), 0); "
+                        "(void)::emboss::WriteToString(v); (void)::emboss::UpdateFromText(v, std::string(\"{}\")); }"
+                        % (ns, t["name"]["name"]["text"], args))
+        src = (cppbuild.CHECK_PRELUDE + '#include "m.emb.h"\n' + c06_txt.DRIVER_PRELUDE +
+               "int main() {\n" + "\n".join(body) + "\n  return 0;\n}\n")
+        binary, log = cppbuild.compile_one(src, name="replay_inst", extra=["-I" + d])
+        print(rec["emb"])
+        print("text I/O of every struct instantiated:", "compiles" if binary else "DOES NOT COMPILE")
+        print("\n".join(ln for ln in log.split("\n") if "error" in ln)[:3000])
+        return 0
+    params = rec.get("parameters") or []
+    make = "::%s::Make%sView" % (ns, rec["struct"])
+    if params:
+        casts = None
+        for t in emb.ir_to_dict(ir)["module"][0]["type"]:
+            if t["name"]["name"]["text"] == rec["struct"]:
+                casts = c06_corpus.param_kinds(t, ns)
+        if not casts or len(casts) != len(params):
+            print("cannot rebuild the parameter list", params)
+            return 2
+        args = ", ".join("%s(%dLL)" % (c, v) for c, v in zip(casts, params))
+        make = "[](unsigned char *d, size_t n) { return ::%s::Make%sView(%s, d, n); }" % (ns, rec["struct"], args)
     d = os.path.join(common.scratch(), "replay")
     os.makedirs(d, exist_ok=True)
     with open(os.path.join(d, "m.emb.h"), "w") as f:
         f.write(header)
     src = (cppbuild.CHECK_PRELUDE + '#include "m.emb.h"\n' + c06_txt.DRIVER_PRELUDE +
-           REPLAY_MAIN.replace("MAKE", "::%s::Make%sView" % (ns, rec["struct"])))
+           REPLAY_MAIN.replace("MAKE", "(%s)" % make))
     binary, log = cppbuild.compile_one(src, name="replay", extra=["-I" + d])
     if binary is None:
         print(log[-3000:])
@@ -131,7 +171,7 @@ def replay(path):
     res = cppbuild.run(binary, "", args=[rec["buffer"] or "-", str(o["multiline"]), str(o["comments"]),
                                          str(o["base"]), str(o["grouping"])])
     print(rec["emb"])
-    print("struct %s, buffer %s, options %r" % (rec["struct"], rec["buffer"], o))
+    print("struct %s, parameters %r, buffer %s, options %r" % (rec["struct"], params, rec["buffer"], o))
     print(res.kind)
     print(res.out)
     print(res.err[-2000:])
